@@ -67,7 +67,7 @@ Example C01_run_reaches_written_state :
   exists s, sreach {| s_fs := ex_f0; s_pool := ex_pool |} s /\ s_pool s = [Ret Success] /\ fs_file (s_fs s) ex_target = Some [7; 8].
 Proof. exact ex_reach. Qed.
 Example C01_run_reaches_cut_state :
-  exists s, sreach {| s_fs := ex_f0; s_pool := ex_pool |} s /\ s_pool s = [] /\ fs_file (s_fs s) ex_target = Some [7; 0].
+  exists s, sreach {| s_fs := ex_f0; s_pool := ex_pool |} s /\ s_pool s = [Ret Fault] /\ fs_file (s_fs s) ex_target = Some [7; 0].
 Proof. exact ex_reach_cut. Qed.
 
 Print Assumptions C01_piece_issues_only_good_ops.
